@@ -43,6 +43,10 @@ def run_D(prop, tier):
     from .contracts import cc as _cc
     if any(reg.contracts[q].file.endswith(("utils/cc.py", "utils/visits.py")) or q.endswith("subhypergraph_largest_component") for q in quals):
         files = list(_cc.LEAN_LEMMAS)
+    # the history-level induction (per-operation refinement => every history refines) for the four container properties and the
+    # double-counting identity behind "degrees sum to the total size" (C08)
+    if prop in ("C01", "C02", "C03", "C04", "C08"):
+        files.append("lean/Refine.lean")
     for f in files:
         lemmas.append(check_lean(f))
     return dict(results=res, wall=time.time() - t0, assumed=assumed, lemmas=lemmas,
@@ -152,13 +156,16 @@ def main(argv=None):
     meta = PROPS.get(prop, dict(level="exploration"))
     lock = load_lock()
     d = dsum = None
+    checker_errors = []      # a crash of the machinery never hides a violation found by the other tier: reported, exit 3 only when nothing else was found
     if not a.no_d:
         try:
             d = run_D(prop, tier)
         except Exception:
             traceback.print_exc()
-            print(f"CHECKER-ERROR property={prop} deductive tier crashed")
-            return 3
+            checker_errors.append(f"CHECKER-ERROR property={prop} deductive tier crashed")
+            if a.update_baseline or a.no_b:
+                print(checker_errors[-1])
+                return 3
     if a.update_baseline and d is None:
         return 0
     if d is None and a.no_b:
@@ -189,8 +196,10 @@ def main(argv=None):
             ctx = run_B(prop, tier, seed)
         except Exception:
             traceback.print_exc()
-            print(f"CHECKER-ERROR property={prop} bounded tier crashed")
-            return 3
+            checker_errors.append(f"CHECKER-ERROR property={prop} bounded tier crashed")
+            if dsum is None:
+                print(checker_errors[-1])
+                return 3
 
     lines, violations = [], 0
     # ---- bounded tier violations: each is a replayed failing input
@@ -209,11 +218,9 @@ def main(argv=None):
             violations += 1
     # ---- deductive tier
     if dsum is not None:
-        if dsum["crashed"]:
-            for c in dsum["crashed"]:
-                print(f"CHECKER-ERROR {c['function']}: {c['reason'][-1500:]}")
-            return 3
-        if dsum["vacuous"] and not dsum["failed"]:
+        for c in dsum["crashed"]:
+            checker_errors.append(f"CHECKER-ERROR {c['function']}: {c['reason'][-1500:]}")
+        if dsum["vacuous"] and not dsum["failed"] and not dsum["crashed"]:
             # contradictory hypotheses with nothing failing: the contracts themselves are at fault. (With failing obligations a
             # contradictory path is a consequence of the failure - e.g. an invariant that does not hold at loop entry - and the
             # failures are reported instead.)
@@ -242,8 +249,7 @@ def main(argv=None):
                 lines.append(f"VIOLATION property={prop} replay={path} no-failing-input-found")
             violations += 1
         if dsum["obligations"] == 0 and not dsum["undecided"]:
-            print(f"CHECKER-ERROR property={prop}: zero obligations generated")
-            return 3
+            checker_errors.append(f"CHECKER-ERROR property={prop}: zero obligations generated")
 
     # ---- evidence
     ev = build_evidence(prop, tier, seed, meta, d, dsum, ctx, violations, time.time() - t0)
@@ -253,8 +259,15 @@ def main(argv=None):
     nd = f"D {dsum['discharged']}/{dsum['obligations']} obligations discharged, {len(dsum['undecided'])} undecided; " if dsum else ""
     nb = f"B {ctx.evaluations} evaluations, {len(ctx._distinct)} distinct non-trivial" if ctx else ""
     print(f"{prop} [{tier}] {nd}{nb} violations={violations} wall={time.time() - t0:.1f}s")
+    if dsum is not None and dsum["undecided"]:
+        print(f"NOTE property={prop}: {len(dsum['undecided'])} contracted function(s) outside the verifier's subset on this tree (undecided, bounded tier decides alone): "
+              + "; ".join(f"{u['function']}: {u['reason'][:80]}" for u in dsum["undecided"][:4]))
+    for ce in checker_errors:
+        print(ce)
     if violations:
         return 1
+    if checker_errors:
+        return 3
     if ctx is None and dsum is not None and dsum["discharged"] == 0:
         return 2
     return 0
